@@ -115,3 +115,7 @@ def run(db, ctx):
     from . import C19
     common.shared_rule(db, ctx, C19.storage_rules, 'R2.13', 'every change of a DenseMatrix row count goes with the same change of its row vector (shared with R19.2 / R19.5)', ['R19.2', 'R19.5'])
     common.shared_rule(db, ctx, C04.stripe_rules, 'R2.14', 'the striped matrix the scanner scores is the sequence (shared with R4.1 - R4.4)', ['R4.1', 'R4.2', 'R4.3', 'R4.4'])
+    from . import C01
+    common.shared_rule(db, ctx, C01.r111, 'R2.15', 'StripedScores::resize stores max_index as given (the scanner bounds candidates by it while scoring one block of rows at a time) '
+                       '— shared with R1.11', ['R1.11'])
+    common.shared_rule(db, ctx, C01.r15, 'R2.16', 'dispatcher arms and dispatching methods are complete (shared with R1.5)', ['R1.5'])
